@@ -126,7 +126,7 @@ type observed struct {
 	Transport string      `json:"transport_error,omitempty"`
 }
 
-var reqCounter, chunkedBodies atomic.Int64
+var reqCounter, chunkedBodies, noisyRequests atomic.Int64
 
 func send(cl *http.Client, a *app.App, pr *app.Probes, w wire) observed {
 	id := fmt.Sprintf("c04-%d", reqCounter.Add(1))
@@ -161,6 +161,9 @@ func send(cl *http.Client, a *app.App, pr *app.Probes, w wire) observed {
 	}
 	if w.Chunked {
 		chunkedBodies.Add(1)
+	}
+	if len(w.Noise) > 0 {
+		noisyRequests.Add(1)
 	}
 	for _, e := range pr.Take(id) {
 		if e.Stage == "authn" {
@@ -385,6 +388,7 @@ func TestC04(t *testing.T) {
 
 	total := r.Counter("answer_authenticated") + r.Counter("answer_failed")
 	r.Count("requests_with_chunked_body", int(chunkedBodies.Load()))
+	r.Count("requests_with_credential_free_noise", int(noisyRequests.Load()))
 	r.Require("type_level_chains", int64(n), 258)
 	r.Require("authenticated_answers", r.Counter("answer_authenticated"), total/10)
 	r.Require("failed_answers", r.Counter("answer_failed"), total/10)
